@@ -1,3 +1,4 @@
 import HvProofs.Basic
 import HvProofs.Hdd
 import HvProofs.Vmtar
+import HvProofs.Wide
